@@ -553,6 +553,9 @@ func (r *Run) evalCall(env *SpecEnv, x ECall) SV {
 			// pkg.Func(args) or pkg.Type(x)
 			o := base.pkg.Scope().Lookup(sel.Sel)
 			if o == nil {
+				if pf, ok := r.eng.pures[base.pkg.Path()+"::"+sel.Sel]; ok {
+					return r.callPure(env, pf, x.Args)
+				}
 				specFail("package %s has no member %s", base.pkg.Name(), sel.Sel)
 			}
 			switch ob := o.(type) {
@@ -813,6 +816,7 @@ func (r *Run) pureInstance(pf *PureFunc) *pureInst {
 		r.emit(fmt.Sprintf("(declare-fun %s (%s) %s)", name, strings.Join(ss, " "), retSort))
 		pi := &pureInst{name: name, retSort: retSort, retT: retT}
 		r.pureInsts[key] = pi
+		r.emitAxiomsFor(pf)
 		return pi
 	}
 	// Evaluate the body in a symbolic state whose heaps are formal parameters.
@@ -1042,4 +1046,28 @@ func (r *Run) evalLoc(env *SpecEnv, e Expr) *Loc {
 	}
 	specFail("not a location: %s", exprString(e))
 	return nil
+}
+
+
+// emitAxioms asserts the (assumed) axioms that constrain an uninterpreted spec function,
+// the first time that function is used in a run.
+func (r *Run) emitAxiomsFor(pf *PureFunc) {
+	for _, ax := range r.eng.axioms {
+		if ax.PkgPath != pf.PkgPath || !mentionsCall(ax.E, pf.Name) {
+			continue
+		}
+		key := ax.PkgPath + "::" + ax.Name + "::" + ax.Src
+		if r.axiomsDone[key] {
+			continue
+		}
+		if r.axiomsDone == nil {
+			r.axiomsDone = map[string]bool{}
+		}
+		r.axiomsDone[key] = true
+		st := &State{pc: tTrue, locals: map[*ssa.Alloc]Term{}, heaps: map[string]Term{}}
+		env := &SpecEnv{run: r, pkg: r.eng.typesPkgs[ax.PkgPath], cur: st, old: st, vars: map[string]SV{}}
+		sv := r.evalNoDef(env, ax.E)
+		r.emit(fmt.Sprintf("(assert %s) ; axiom %s", sv.t.S, ax.Name))
+		r.axiomsUsed = append(r.axiomsUsed, ax.PkgPath+": "+ax.Name+": "+ax.Src)
+	}
 }
